@@ -14,7 +14,7 @@ import (
 func init() {
 	register("C11", &ruleSet{
 		run:    runC11,
-		floors: map[string]int{"O1": 1, "O2": 3, "O3": 7, "O4": 1},
+		floors: map[string]int{"O1": 1, "O2": 3, "O3": 7, "O4": 1, "O5": 3},
 		explain: "Decides structurally that the configured order reaches the queue and that the queue's two ends are used consistently: (O1) in the queue-limiter " +
 			"constructor the backlog's ordering field is stored from the config's ordering field read after defaulting (a constant is a violation); (O2) if push " +
 			"inserts at end P of the list, the FIFO case of the selection reads the opposite end and the LIFO case the same end, the selection is exhaustive over " +
@@ -66,6 +66,8 @@ func isListPtr(t types.Type) bool {
 func runC11(p *Prog, l *Ledger) {
 	l.Rule("O1", "config reaches the backlog: the backlog's ordering field is stored from the config's ordering field, read after defaulting")
 	l.Rule("O2", "ends agree: push inserts at one end; FIFO selection reads the opposite end, LIFO the same end; selection exhaustive over the two constants; eviction removes exactly the selected element under the queue mutex")
+	l.Rule("O5", "the line is made of the callers still waiting (decided by the C12/O2 rule on the same tree): a caller that leaves Acquire has taken its own element out exactly once, so nobody who has gone keeps a place ahead of those still waiting")
+	importObligations(p, l, "C12", "O5", func(o *Obligation) bool { return o.Rule == "O2" })
 	l.Rule("O3", "constructors and pools select the order their name states; the default ordering is LIFO")
 	l.Rule("O4", "unblock (peek, acquire for the waiter, evict, deliver) is one exclusive critical section of the limiter mutex")
 	l.NotCovered = []string{"that arrival order equals push order (C10/O5a)", "scheduler effects on which woken caller proceeds first"}
@@ -252,6 +254,31 @@ func runC11(p *Prog, l *Ledger) {
 		if len(reads) == 0 {
 			continue
 		}
+		// a selection hands a waiter to somebody: it returns something that can carry one (an element, a slice, a
+		// closure) or acts on one. A scan that only answers a yes/no or a number question (contains, count) selects nobody.
+		carries := false
+		for i := 0; i < f.Signature.Results().Len(); i++ {
+			if _, basic := f.Signature.Results().At(i).Type().Underlying().(*types.Basic); !basic {
+				carries = true
+			}
+		}
+		allInstrs(f, func(ins ssa.Instruction) {
+			if call, ok := ins.(*ssa.Call); ok {
+				if c := p.CallOf(call); c.Static != nil && p.InModule(c.Static) && c.Recv != nil && c.Static != f {
+					if nt := derefNamed(c.Recv.Type()); nt != nil && nt != backlog {
+						carries = true // a method of an element / the limiter is invoked from here
+					}
+				}
+			}
+			switch ins.(type) {
+			case *ssa.Send, *ssa.Select, *ssa.Go:
+				carries = true
+			}
+		})
+		if !carries {
+			l.Note("%s reads the ends of the backlog but returns only plain values and acts on no waiter: not a selection", p.Key(f))
+			continue
+		}
 		nSel++
 		selFns[f] = true
 		key := p.Key(f) + "/select"
@@ -426,7 +453,7 @@ func runC11(p *Prog, l *Ledger) {
 	}
 	// default: ApplyDefaults maps "" -> LIFO
 	if ad := p.Method(cfgT, "ApplyDefaults"); ad != nil {
-		found, good := false, false
+		found, good, wrong := false, false, false
 		EnumPaths(ad, 100000, func(pa *Path) bool {
 			pa.Each(func(step int, ins ssa.Instruction) bool {
 				st, ok := ins.(*ssa.Store)
@@ -450,13 +477,16 @@ func runC11(p *Prog, l *Ledger) {
 				if emptyChecked && isC && strings.HasSuffix(n, "LIFO") {
 					good = true
 				} else {
-					good = false
+					wrong = true
 					return false
 				}
 				return true
 			})
 			return true
 		})
+		if wrong {
+			good = false
+		}
 		l.Check(found && good, "O3", p.Key(ad)+"/default", p.FuncPos(ad), "an empty ordering defaults to LIFO, and only an empty one is overwritten",
 			"the default ordering is not LIFO as the type's documentation states (or a configured ordering is overwritten)")
 	} else {
